@@ -60,7 +60,7 @@ func c16cRun(x *vmc.X, cfg vmc.Cfg) {
 	}
 	self := kid.Peer("0110", 4)
 	edges := n * (n - 1)
-	behs := []string{sim.BAll, sim.BDialFail, sim.BReqFail}
+	behs := []string{sim.BAll, sim.BDialFail, sim.BReqFail, sim.BAllThenFail} // at most one peer of the last kind per world
 	seedLists := [][]int{{0}, {0, 1}, {0, 0}, {1, 0, 1}, {-1, 1}, {n - 1}} // -1: peer 0 without addresses
 	idx := 0
 	quick := x.Tracing() // unused
@@ -72,6 +72,15 @@ func c16cRun(x *vmc.X, cfg vmc.Cfg) {
 			total *= len(behs)
 		}
 		for bm := 0; bm < total; bm++ {
+			late := 0
+			for bb, i := bm, 0; i < n; i, bb = i+1, bb/len(behs) {
+				if bb%len(behs) == 3 {
+					late++
+				}
+			}
+			if late > 1 {
+				continue
+			}
 			for si, seeds := range seedLists {
 				idx++
 				if idx%c.of != c.chunk {
@@ -190,6 +199,12 @@ func c16cOne(x *vmc.X, w *sim.World, ids []peer.ID, seeds []int, shape string) b
 			}
 			if (len(pe.Knows) > 0) != (succ[p] == 1) {
 				x.Failf("C16/crawler-wrong-outcome", "%s: %s knows %d peers, success callbacks %d", shape, w.Name(p), len(pe.Knows), succ[p])
+				return false
+			}
+		case sim.BAllThenFail:
+			// what it said before it broke down is dropped: one failure outcome, and the crawl of this peer stops
+			if reqs[p] != 4 || fail[p] != 1 || succ[p] != 0 {
+				x.Failf("C16/crawler-partial-failure", "%s: %s answered three requests and failed the fourth: %d requests, %d success and %d failure callbacks (expected 4, 0, 1)", shape, w.Name(p), reqs[p], succ[p], fail[p])
 				return false
 			}
 		case sim.BReqFail:
